@@ -165,6 +165,9 @@ def simultaneous_relations(ctx: Ctx, pid: str):
 def merged_transactions(ctx: Ctx, pid: str):
     """_simultaneous step 4/5: every joined transaction becomes a method, and each merged transaction calls *every*
     member of its group with enable_call = all runs of its conditional ready-dependencies."""
+    from . import core7
+
+    core7.simultaneous_groups(ctx, pid)
     rule = f"{pid}.merged-transaction"
     fn = _fn(ctx, MANAGER, "TransactionManager._simultaneous", rule)
     calls = fn.facts(MethodCall)
@@ -233,7 +236,7 @@ def connect_component(ctx: Ctx, pid: str):
     ex = comp.configs[0]
     w, r = find_body(ex, "write"), find_body(ex, "read")
     if w is None or r is None:
-        raise AnalysisError(rule, comp.site, "Connect.read / Connect.write bodies not found")
+        raise AnalysisError(rule, comp.site, "Connect.read / Connect.write bodies not found", missing="Connect.read / Connect.write bodies not found")
     rels = [x for x in ex.of(Relation) if x.kind in ("simultaneous", "simultaneous_alternatives")]
     ok = any({x.subject, *x.args} == {("a", ("self",), "write"), ("a", ("self",), "read")} for x in rels)
     ctx.check(ok, rule + ".simultaneous", comp.site, "Connect.simultaneous", found="; ".join(f"{tstr(x.subject)}.{x.kind}({', '.join(tstr(a) for a in x.args)})" for x in rels) or "none",
